@@ -672,12 +672,16 @@ func (obj *SparseInt64Matrix) JointIterator(b ConstMatrix) MatrixJointIterator {
   return obj.JOINT_ITERATOR(b)
 }
 func (obj *SparseInt64Matrix) ITERATOR() *SparseInt64MatrixIterator {
-  r := SparseInt64MatrixIterator{*obj.values.ITERATOR(), obj}
+  // start at the first element of the (possibly sliced) matrix
+  k := obj.rowOffset*obj.colMax + obj.colOffset
+  r := SparseInt64MatrixIterator{*obj.values.ITERATOR_FROM(k), obj}
+  r.clip()
   return &r
 }
 func (obj *SparseInt64Matrix) ITERATOR_FROM(i, j int) *SparseInt64MatrixIterator {
   k := obj.index(i, j)
   r := SparseInt64MatrixIterator{*obj.values.ITERATOR_FROM(k), obj}
+  r.clip()
   return &r
 }
 func (obj *SparseInt64Matrix) JOINT_ITERATOR(b ConstMatrix) *SparseInt64MatrixJointIterator {
@@ -698,6 +702,28 @@ type SparseInt64MatrixIterator struct {
 }
 func (obj *SparseInt64MatrixIterator) Index() (int, int) {
   return obj.m.ij(obj.SparseInt64VectorIterator.Index())
+}
+func (obj *SparseInt64MatrixIterator) Ok() bool {
+  if !obj.SparseInt64VectorIterator.Ok() {
+    return false
+  }
+  // stop after the last row of a sliced matrix
+  i, _ := obj.Index()
+  return i < obj.m.rows
+}
+func (obj *SparseInt64MatrixIterator) Next() {
+  obj.SparseInt64VectorIterator.Next()
+  obj.clip()
+}
+// skip entries of the storage that are not within the columns of a
+// sliced matrix
+func (obj *SparseInt64MatrixIterator) clip() {
+  for obj.Ok() {
+    if _, j := obj.Index(); j >= 0 && j < obj.m.cols {
+      break
+    }
+    obj.SparseInt64VectorIterator.Next()
+  }
 }
 func (obj *SparseInt64MatrixIterator) Clone() *SparseInt64MatrixIterator {
   return &SparseInt64MatrixIterator{*obj.SparseInt64VectorIterator.Clone(), obj.m}
